@@ -40,7 +40,12 @@ func (b *recBowl) Transpose(t bowl.Transposition) error {
 // genPatch produces a plain or optimized patch for the pair (directories must exist).
 func genPatch(rt *rapid.T, oldDir, newDir string, allowOptimized bool) (patch []byte, desc string, fail string) {
 	comp := GenCompression(rt)
-	dr := Diff(oldDir, newDir, comp, DiffSeams{})
+	seams := DiffSeams{}
+	if rapid.IntRange(0, 3).Draw(rt, "ziplikecontainers") == 0 {
+		seams.ZipLikeContainers = rapid.Uint64().Draw(rt, "ziplikeseed") | 1
+		Ev.Probe("containers_list_directories_like_a_zip_walk")
+	}
+	dr := Diff(oldDir, newDir, comp, seams)
 	if dr.Err != nil || dr.Panic != "" {
 		return nil, "", fmt.Sprintf("WritePatch failed: %v %s", dr.Err, dr.Panic)
 	}
